@@ -71,3 +71,7 @@ pub trait Protobuf: Sized {
         Self::Raw::full_name()
     }
 }
+
+#[cfg(all(test, feature = "verif"))]
+#[path = "/verif/harness/core/core_mc.rs"]
+mod verif_core;
